@@ -1,5 +1,6 @@
 import H264.RbspProofs4
 import H264.RbspSpec
+import H264.Fast
 /-! Prototype for C02: the one-shot `decode_nal` (post-fix D11) and its borrow rule -/
 namespace Rbsp
 
@@ -10,6 +11,31 @@ def drainLoop : Nat → BR → List UInt8 → List UInt8 × Option IoKind
     match fillBuf r with
     | (_, .error k) => (acc, some k)
     | (r', .ok buf) => if buf = [] then (acc, none) else drainLoop fuel (consume r' buf.length) (acc ++ buf)
+
+/-- the same loop with a reversed accumulator (linear time); the compiler uses it in place of `drainLoop` -/
+def drainLoopFast : Nat → BR → List UInt8 → List UInt8 × Option IoKind
+  | 0, _, ar => (ar.reverse, none)
+  | fuel+1, r, ar =>
+    match fillBuf r with
+    | (_, .error k) => (ar.reverse, some k)
+    | (r', .ok buf) => if buf = [] then (ar.reverse, none) else drainLoopFast fuel (consume r' buf.length) (buf.reverse ++ ar)
+
+theorem drainLoopFast_eq (fuel : Nat) (r : BR) (ar : List UInt8) :
+    drainLoopFast fuel r ar = drainLoop fuel r ar.reverse := by
+  induction fuel generalizing r ar with
+  | zero => rfl
+  | succ f ih =>
+    unfold drainLoopFast drainLoop
+    split
+    · rfl
+    · split
+      · rfl
+      · rw [ih]; simp
+
+def drainLoop' (fuel : Nat) (r : BR) (acc : List UInt8) : List UInt8 × Option IoKind := drainLoopFast fuel r acc.reverse
+
+@[csimp] theorem drainLoop_eq_fast : @drainLoop = @drainLoop' := by
+  funext fuel r acc; unfold drainLoop'; rw [drainLoopFast_eq]; simp
 
 /-- `decode_nal(nal)`: `(borrowed?, bytes)` or `InvalidData` -/
 def decodeNal (nal : List UInt8) : Except IoKind (Bool × List UInt8) :=
